@@ -93,7 +93,9 @@ Record input := {
   i_sse : option (list bytes);      (* ASGI: resp.sse, ORACLE: each event already serialized *)
   i_clen : option str;              (* Content-Length set by the application *)
   i_ctype : option str;             (* Content-Type set by the application *)
-  i_wrapper : bool                  (* WSGI: environ has wsgi.file_wrapper *)
+  i_wrapper : bool;                 (* WSGI: environ has wsgi.file_wrapper *)
+  i_cached : bool                   (* resp._media_rendered already holds the serialized media
+                                       (an earlier render_body() call): no side effect now *)
 }.
 
 (* Response.render_body: text, else data, else rendered media *)
@@ -113,7 +115,7 @@ Record hdrs := { h_clen : option str; h_ctype : option str }.
    `if not self.content_type: self.content_type = self.options.default_media_type` *)
 Definition media_rendered (i : input) : bool :=
   match i_text i, i_data i, i_media i with
-  | None, None, Some _ => true
+  | None, None, Some _ => negb (i_cached i)
   | _, _, _ => false
   end.
 
@@ -344,3 +346,79 @@ Definition asgi_emit (i : input) (fail_at : option nat) : option asgi_out :=
       end
     end
   end.
+
+(* ================================================================== building the response
+   in several steps: assignments to text / data / media / content_type interleaved with early
+   render_body() calls (a middleware or the responder peeking at the body).  Response.media's
+   setter resets the render cache; data / text setters do not touch it; render_body() caches the
+   serialized media in _media_rendered and uses the cache only when text and data are None. *)
+Inductive step :=
+| StText (v : option bytes)       (* resp.text = v   (already UTF-8 encoded) *)
+| StData (v : option bytes)       (* resp.data = v *)
+| StMedia (v : option bytes)      (* resp.media = obj, ORACLE: v = its serialization; None = None *)
+| StCtype (v : option str)        (* resp.content_type = v *)
+| StRender.                       (* resp.render_body() *)
+
+Record rstate := {
+  rs_text : option bytes;
+  rs_data : option bytes;
+  rs_media : option bytes;
+  rs_rendered : option bytes;     (* _media_rendered; None = _UNSET *)
+  rs_ctype : option str
+}.
+
+Definition rs_init : rstate :=
+  {| rs_text := None; rs_data := None; rs_media := None; rs_rendered := None; rs_ctype := None |}.
+
+(* Response.render_body on a response under construction *)
+Definition render_state (s : rstate) : option bytes * rstate :=
+  match rs_text s with
+  | Some t => (Some t, s)
+  | None =>
+    match rs_data s with
+    | Some d => (Some d, s)
+    | None =>
+      match rs_media s with
+      | None => (None, s)
+      | Some m =>
+        match rs_rendered s with
+        | Some r => (Some r, s)
+        | None =>
+          (Some m, {| rs_text := rs_text s; rs_data := rs_data s; rs_media := rs_media s;
+                      rs_rendered := Some m;
+                      rs_ctype := match rs_ctype s with
+                                  | None | Some [] => Some default_media_type
+                                  | c => c
+                                  end |})
+        end
+      end
+    end
+  end.
+
+Definition do_step (s : rstate) (st : step) : rstate :=
+  match st with
+  | StText v => {| rs_text := v; rs_data := rs_data s; rs_media := rs_media s;
+                   rs_rendered := rs_rendered s; rs_ctype := rs_ctype s |}
+  | StData v => {| rs_text := rs_text s; rs_data := v; rs_media := rs_media s;
+                   rs_rendered := rs_rendered s; rs_ctype := rs_ctype s |}
+  | StMedia v => {| rs_text := rs_text s; rs_data := rs_data s; rs_media := v;
+                    rs_rendered := None; rs_ctype := rs_ctype s |}
+  | StCtype v => {| rs_text := rs_text s; rs_data := rs_data s; rs_media := rs_media s;
+                    rs_rendered := rs_rendered s; rs_ctype := v |}
+  | StRender => snd (render_state s)
+  end.
+
+Definition run_steps (l : list step) : rstate := fold_left do_step l rs_init.
+
+(* what the app finally renders: the cache, when present, stands for the media *)
+Definition input_of_session (l : list step) (head : bool) (status : status_in)
+           (stream : option stream) (clen : option str) (wrapper : bool) : input :=
+  let s := run_steps l in
+  {| i_head := head; i_status := status; i_text := rs_text s; i_data := rs_data s;
+     i_media := match rs_media s with
+                | Some m => Some (match rs_rendered s with Some r => r | None => m end)
+                | None => None
+                end;
+     i_stream := stream; i_sse := None; i_clen := clen; i_ctype := rs_ctype s;
+     i_wrapper := wrapper;
+     i_cached := match rs_rendered s with Some _ => true | None => false end |}.
